@@ -86,10 +86,53 @@ Definition c04_compose_step (s : state) (r : req) (obs : resp) : N :=
   | _ => 0%N
   end.
 
+(* the request that sends the last byte of a resumable upload: gated by the conditions the session was
+   opened with, judged against the object as it is NOW.  (A stored zero is "absent": GCS-7.) *)
+Definition cval_of_stored (z : Z) : cval := if Z.eqb z 0 then VAbsent else VNum z.
+
+Definition c04_resumable_step (s : state) (r : req) (obs : resp) : N :=
+  match r with
+  | RResumablePut id crange data =>
+      match alookup id (s_uploads s), crange with
+      | Some u, Some cr =>
+          match parse_byte_range cr with
+          | Some br =>
+              match resume_apply (up_data u) br data with
+              | Some d' =>
+                  if resume_done br d' && negb (N.eqb (up_md5 u) 2 || N.eqb (up_md5 u) 3) then
+                    let c := up_conds u in
+                    let p1 := if c_dne c then VNum 0 else cval_of_stored (c_gm c) in
+                    let p2 := cval_of_stored (c_gnm c) in
+                    let p3 := cval_of_stored (c_mm c) in
+                    let p4 := cval_of_stored (c_mnm c) in
+                    let og := obj_gens (find_obj s (up_bucket u) (up_name u)) in
+                    let st := r_status obs in
+                    if holds p1 p2 p3 p4 og then (if Z.eqb st 200 then 0 else 3)%N
+                    else if Z.eqb st 200 then 2%N
+                    else if Z.eqb st 412 then
+                      (if match og with None => true | _ => false end
+                          || negb (cond_holds KGenMatch p1 og) || negb (cond_holds KMetaMatch p3 og) then 0 else 4)%N
+                    else if Z.eqb st 304 then
+                      (if negb (cond_holds KGenNotMatch p2 og) || negb (cond_holds KMetaNotMatch p4 og) then 0 else 4)%N
+                    else 4%N
+                  else 0%N
+              | None => 0%N
+              end
+          | None => 0%N
+          end
+      | _, _ => 0%N
+      end
+  | _ => 0%N
+  end.
+
 Fixpoint c04_run (s : state) (i : N) (rs : list req) (obs : list resp) : list (N * N) :=
   match rs, obs with
   | r :: rs', o :: obs' =>
-      let code := match r with RCompose _ _ _ _ _ _ => c04_compose_step s r o | _ => c04_step s r o end in
+      let code := match r with
+                  | RCompose _ _ _ _ _ _ => c04_compose_step s r o
+                  | RResumablePut _ _ _ => c04_resumable_step s r o
+                  | _ => c04_step s r o
+                  end in
       let s' := fst (handle s r) in
       if N.eqb code 0 then c04_run s' (i + 1)%N rs' obs' else (i, code) :: c04_run s' (i + 1)%N rs' obs'
   | _, _ => []
